@@ -321,7 +321,7 @@ Definition addrs_of (news : list (option addr * N)) : list addr :=
   flat_map (fun n => match fst n with Some a => [a] | None => [] end) news.
 
 Lemma admit_spec news : forall m m' cs,
-  admit news m = (m', cs) -> nodupb (addrs_of news) = true ->
+  admission news m = (m', cs) -> nodupb (addrs_of news) = true ->
   forallb (fun a => negb (mem a (keys m))) (addrs_of news) = true ->
   (nodupb (keys m) = true -> nodupb (keys m') = true) /\
   forall b, mem b (keys m') = mem b (keys m) || mem b (addrs_of news) /\
@@ -330,9 +330,9 @@ Lemma admit_spec news : forall m m' cs,
             count EC (proj b cs) = (if mem b (addrs_of news) then 1 else 0)%nat /\
             count ED (proj b cs) = 0%nat.
 Proof.
-  induction news as [|[[a|] lp] r IH]; intros m m' cs E ND FR; cbn [admit] in E.
+  induction news as [|[[a|] lp] r IH]; intros m m' cs E ND FR; cbn [admission] in E.
   - injection E as <- <-. split; [auto|]. intros b. cbn. rewrite orb_false_r. repeat split; reflexivity.
-  - destruct (admit r (insert a lp m)) as [m1 ds1] eqn:A. injection E as <- <-.
+  - destruct (admission r (insert a lp m)) as [m1 ds1] eqn:A. injection E as <- <-.
     cbn [addrs_of flat_map fst app] in ND, FR. fold (addrs_of r) in ND, FR.
     cbn [nodupb] in ND. apply andb_true_iff in ND as [NA ND]. apply negb_true_iff in NA.
     cbn [forallb] in FR. apply andb_true_iff in FR as [Fa FR]. apply negb_true_iff in Fa.
@@ -397,7 +397,7 @@ Proof.
     [|discriminate|contradiction].
   destruct P2 as (K1 & K2 & K3 & K4 & K5).
   apply andb_true_iff in W as [[NA FR]%andb_true_iff OK].
-  destruct (admit (i_new inp) m) as [m' cs] eqn:A. cbn [fst] in OK.
+  destruct (admission (i_new inp) m) as [m' cs] eqn:A. cbn [fst] in OK.
   intros E; injection E as <- <- <-. cbn [streams].
   destruct (admit_spec _ _ _ _ A NA FR) as [A1 A2].
   split; [|split; [exists ws2; split; [exact K5|reflexivity]|exact OK]].
@@ -417,7 +417,7 @@ Proof.
   destruct (permb_parts _ _ PB) as [NO ALL].
   pose proof (phase2_spec cfg (will_ping cfg st inp) (i_per inp) (i_order inp) (streams st) NO ALL) as P2.
   destruct (phase2 cfg (will_ping cfg st inp) (i_per inp) (i_order inp) (streams st)) as [m ds2 ws2|m ds2|];
-    [destruct (admit (i_new inp) m); discriminate| |contradiction].
+    [destruct (admission (i_new inp) m); discriminate| |contradiction].
   destruct P2 as (K1 & K2 & K3).
   intros E; injection E as <- <-. cbn [streams]. split; [auto|].
   intros b. destruct (K3 b) as (ms & S1 & S2 & S3 & S4). now split.
@@ -430,14 +430,14 @@ Proof.
   destruct (permb_parts _ _ PB) as [NO ALL].
   pose proof (phase2_spec cfg (will_ping cfg st inp) (i_per inp) (i_order inp) (streams st) NO ALL) as P2.
   destruct (phase2 cfg (will_ping cfg st inp) (i_per inp) (i_order inp) (streams st)) as [m ds2 ws2|m ds2|];
-    [destruct (admit (i_new inp) m); discriminate|discriminate|contradiction].
+    [destruct (admission (i_new inp) m); discriminate|discriminate|contradiction].
 Qed.
 
 Lemma poll_exit cfg st inp : poll cfg st inp = Exit <-> i_shutdown inp = true.
 Proof.
   unfold poll. destruct (i_shutdown inp); [tauto|].
   split; [|discriminate].
-  destruct (phase2 _ _ _ _ _); [destruct (admit _ _)| |]; discriminate.
+  destruct (phase2 _ _ _ _ _); [destruct (admission _ _)| |]; discriminate.
 Qed.
 
 (* ---------------------------------------------------------------------------------------------- *)
@@ -649,7 +649,7 @@ Proof.
   - exfalso. unfold poll in P. destruct (i_shutdown inp); [discriminate|].
     pose proof (phase2_no_block cfg (will_ping cfg st inp) (i_per inp) (i_order inp) (streams st) N1) as K.
     destruct (phase2 cfg (will_ping cfg st inp) (i_per inp) (i_order inp) (streams st)) eqn:E;
-      [destruct (admit (i_new inp) m); discriminate| |discriminate].
+      [destruct (admission (i_new inp) m); discriminate| |discriminate].
     now apply (K m ds0).
 Qed.
 
